@@ -14,7 +14,8 @@ from ..nf import Rat
 BI = "torchsde/_brownian/brownian_interval.py"
 DERIVED = "torchsde/_brownian/derived.py"
 
-SIZE = (Fraction(2), Fraction(3))
+# a sample shape with two batch axes and one channel axis: (*batch, channels)
+SIZE = (Fraction(2), Fraction(3), Fraction(4))
 
 
 class BrownianHooks(Hooks):
